@@ -126,6 +126,8 @@ impl Scenario for C11 {
         let mut v = vec![];
         if m.advances < 1 {
             v.push(Act::Advance(20));
+            // ~64 days: longer than any TTL a contract extends to, shorter than the minimum persistent TTL
+            v.push(Act::Advance(1_100_000));
         }
         for deployer in 0..2usize {
             for salt in 0..2usize {
